@@ -1,15 +1,38 @@
-"""C15 (bounded part; proved part to be added)."""
+"""C15 - merge, combine and split preserve exactly the right models.  Mixed: plain merge/combine/split and the model-cache part proved,
+composite merge and end-to-end histories bounded."""
+from vf.common import task
 from vf.props import _rtc
 
-LEVEL = "exploration"
-LEVEL_TEXT = ("Bounded stand-in only in this round (labelled bounded, never counted as proved): histories on the real solver classes judged by a "
-              "stateless reference; exact modes by equality with the reference, approximate modes by containment.")
-TECHNIQUE = "bounded run-time contracts on histories (stand-in)"
+LEVEL = "other"
+LEVEL_TEXT = ("Mixed.  PROVED: the real ConstrainedFrontend.merge (with and without common ancestor), combine, split and _split_constraints on "
+              "frontends whose constraints are arbitrary value tables over a finite universe (claripy.And / Or by their C01 contract): the "
+              "result's model set is the union of the guarded inputs' / the ancestor's models restricted to the merge conditions / the "
+              "intersection / unchanged; split pieces share no variable and every conjunct lands in exactly one piece; the inputs are not "
+              "mutated and the result shares no list with them.  The real ModelCacheMixin.combine and split: every cached model of the result "
+              "satisfies the result's constraints whenever the inputs' cached models satisfy theirs (constraints are symbolic truth tables "
+              "that depend only on their solver's variables, overlapping and disjoint variable sets).  BOUNDED (never counted as proved): "
+              "CompositeFrontend.merge and everything end to end on the real solver classes, model sets judged by a stateless reference.")
+EXPLANATION = ("proved: 7 obligations (merge x2, combine, split, _split_constraints, ModelCacheMixin.combine, ModelCacheMixin.split) over "
+               "up to 3 solvers x up to 2 constraints; bounded: histories with merge/combine/split on the real classes")
+TECHNIQUE = "class-in-isolation deductive proofs of merge/combine/split over a finite semantic universe (pyvc, z3) + bounded run-time contracts on histories"
 RULE = _rtc.RTC_RULE
-FUNCTIONS = []
-TRUSTED = _rtc.RTC_TRUSTED
-ASSUMPTIONS = ["bounded histories; see rule"]
+M = "vf.contracts.mergesplit"
+FUNCTIONS = ["ConstrainedFrontend.merge", "ConstrainedFrontend.combine", "ConstrainedFrontend.split", "ConstrainedFrontend._split_constraints",
+             "ConstrainedFrontend._add", "ConstrainedFrontend._blank_copy", "ConstrainedFrontend._copy", "Frontend.add", "Frontend.branch", "Frontend.blank_copy",
+             "ModelCacheMixin.combine", "ModelCacheMixin.split", "ModelCache.combine", "ModelCache.filter"]
+TRUSTED = _rtc.RTC_TRUSTED + ["contract of claripy.And / claripy.Or (C01): pointwise conjunction / disjunction",
+                              "contract of the stack below ModelCacheMixin for combine/split (what the first five obligations prove of ConstrainedFrontend)"]
+ASSUMPTIONS = ["the code is parametric in the constraint language: universe of 4 assignments; up to 3 solvers with up to 2 constraints each; variables from {a, b, c}",
+               "CompositeFrontend.merge/combine/split and HybridFrontend.merge/combine/split are covered by the bounded part only",
+               "per-method contracts compose to histories by induction (stated, not mechanised)"]
 
 
 def tasks(tier, seed=0):
-    return _rtc.rtc_tasks("C15", tier, seed)
+    out = [task(M, "ob_merge", "frontend.merge[plain]/model-set+frame", ["C15"], form="plain", tier=tier),
+           task(M, "ob_merge", "frontend.merge[ancestor]/model-set+frame", ["C15"], form="ancestor", tier=tier),
+           task(M, "ob_combine", "frontend.combine/model-set+frame", ["C15"], tier=tier),
+           task(M, "ob_split", "frontend.split/model-set+independent", ["C15", "C12"], via="split", tier=tier),
+           task(M, "ob_split", "frontend._split_constraints/partition", ["C15", "C12"], via="_split_constraints", tier=tier),
+           task(M, "ob_mc_combine", "mixin.ModelCacheMixin.combine/cached-models-valid", ["C15", "C11", "C26"], tier=tier),
+           task(M, "ob_mc_split", "mixin.ModelCacheMixin.split/cached-models-valid", ["C15", "C11"], tier=tier)]
+    return out + _rtc.rtc_tasks("C15", tier, seed)
